@@ -2,9 +2,10 @@
 Line protocol of `Model/TableSplitBorders.lean`.
 
   skip ::= none | (g none) | (g r true|false)
-  splitborders <skip> (groupLen…) hasHeader hasFooter brokenInRow ((width…)…) before
+  splitborders <skip> (groupLen…) hasHeader headerShown hasFooter brokenInRow ((width…)…) before
      → skippedRows splitCells borderTop skipTop skipBottom     | err:IndexError | err:ValueError
   splitcelly rowY collapse hasHeader resumed (headerBottomWidth…)   → cell.position_y
+  splitcellbox rowY rowHeight collapse hasHeader resumed (headerBottomWidth…) → cell.position_y border-box height
 -/
 import WpModel.Model.Wire
 import WpModel.Model.TableSplitBorders
@@ -21,7 +22,7 @@ def skip? : Sx → Option Skip
 
 def handle (cmd : String) (args : List Sx) : Option String :=
   match cmd, args with
-  | "splitborders", [skip, .list lens, hd, ft, broken, .list hw, before] => do
+  | "splitborders", [skip, .list lens, hd, shown, ft, broken, .list hw, before] => do
     let skip ← skip? skip
     let lens ← allSome Sx.nat? lens
     let hd ← hd.bool?
@@ -29,8 +30,15 @@ def handle (cmd : String) (args : List Sx) : Option String :=
     match borderTop skip lens hd hw (← before.rat?) with
     | .error e => pure (errStr e)
     | .ok bt =>
-      pure (toString (skippedRows skip lens) ++ " " ++ toString (splitCells skip) ++ " " ++ showRat bt ++ " " ++
+      pure (toString (finalSkippedRows skip lens hd (← shown.bool?)) ++ " " ++ toString (splitCells skip) ++ " " ++ showRat bt ++ " " ++
             toString (skipTop skip hd) ++ " " ++ toString (skipBottom (← broken.bool?) (← ft.bool?)))
+  | "splitcellbox", [y, h, collapse, hd, resumed, hb] => do
+    let y ← y.rat?
+    let c ← collapse.bool?
+    let hd ← hd.bool?
+    let r ← resumed.bool?
+    let hb ← rats? hb
+    pure (showRat (splitCellY y c hd r hb) ++ " " ++ showRat (splitCellHeight y (← h.rat?) c hd r hb))
   | "splitcelly", [y, collapse, hd, resumed, hb] => do
     pure (showRat (splitCellY (← y.rat?) (← collapse.bool?) (← hd.bool?) (← resumed.bool?) (← rats? hb)))
   | _, _ => none
